@@ -119,3 +119,46 @@ def _(self):
         and implies(profile_value(self, g, r) == 0, self._region_coverage[g, r] == 0))), label="normalised")
     ensures(forall(lambda g=int, r=str: implies((g, r) in self._region_coverage, is_region(self, g, r))), label="only-regions")
     modifies(self._region_coverage)
+
+
+def keeps_list(f):
+    """filter result that replaces the observations: a non-empty list"""
+    return isinstance(f, list) and len(f) > 0
+
+
+def keeps_all(f):
+    """filter result that keeps the entry as it is: True"""
+    return isinstance(f, bool) and f == True
+
+
+@contract("aldy.coverage.Coverage.filtered")
+def _(self, filter_fn):
+    types(filter_fn="Callable[[Coverage, Mutation], Union[bool, List[Tuple[float, float]]]]")
+    returns("Coverage")
+    # the filter is a pure function of (coverage, variant) that does not modify the coverage
+    # C14: "filtered coverage is a new object": the receiver is not modified
+    modifies()
+    ensures(not sameobj(result, self), label="fresh")
+    ensures(not sameobj(result._coverage, self._coverage), label="fresh-table")
+    # C15: an entry survives iff the filter returns a non-empty list (which then replaces the
+    # observations) or True (observations kept)
+    ensures(forall(lambda pos=int, o=str: in_pileup(result, pos, o) == (
+        in_pileup(self, pos, o) and (keeps_list(filter_fn(self, Mutation(pos, o))) or keeps_all(filter_fn(self, Mutation(pos, o)))))),
+        label="kept-entries")
+    ensures(forall(lambda pos=int, o=str: implies(
+        in_pileup(self, pos, o) and keeps_list(filter_fn(self, Mutation(pos, o))),
+        result._coverage[pos][o] == filter_fn(self, Mutation(pos, o)))), label="replaced-observations")
+    ensures(forall(lambda pos=int, o=str: implies(
+        in_pileup(self, pos, o) and keeps_all(filter_fn(self, Mutation(pos, o))),
+        result._coverage[pos][o] == self._coverage[pos][o])), label="kept-observations")
+    # every position of the table stays a key (possibly with no entries)
+    ensures(forall(lambda pos=int: (pos in result._coverage) == (pos in self._coverage)), label="positions")
+    # indel-table entries are kept unless the filter returns exactly False
+    ensures((result._indels is None) == (self._indels is None or not self._indels), label="indel-table-present")
+    ensures(implies(result._indels is not None, forall(lambda pos=int, o=str: ((pos, o) in result._indels) == (
+        (pos, o) in self._indels and not (isinstance(filter_fn(self, Mutation(pos, o)), bool) and filter_fn(self, Mutation(pos, o)) == False)))),
+        label="indel-entries")
+    ensures(implies(result._indels is not None, forall(lambda pos=int, o=str: implies(
+        (pos, o) in result._indels, result._indels[pos, o] == self._indels[pos, o]))), label="indel-values")
+    # everything else is shared with the receiver (shallow copy)
+    shares(result, self, "gene", "profile", "sam", "_cnv_coverage", "_region_coverage")
